@@ -70,21 +70,40 @@ Definition set_lsc_v (x : Z) (v : mv) : mv :=
        (a_relay v) (a_halted v) (a_outs v).
 Definition anow32 (c : cfgT) (v : mv) : Z := u32 (boot c + a_now v).
 
-(* legacy handler, input is not the configuration button *)
+(* entering configuration mode ends the case (Model.halt) *)
+Definition ahalt (v : mv) : mv :=
+  mkmv (a_now v) (a_last v) (a_cc v) (a_maxc v) (a_act v) (a_relg v) (a_lsc v) (a_silent v) (a_ton v) (a_tdue v) (a_tadv v)
+       (a_relay v) true (OCfgmode (a_now v) :: a_outs v).
+Definition armt_v (v : mv) : mv :=                  (* os_timer_arm(timer, 20 ms, repeat) *)
+  mkmv (a_now v) (a_last v) (a_cc v) (a_maxc v) (a_act v) (a_relg v) (a_lsc v) (a_silent v) true (a_now v + CYCLE_US) (a_tadv v)
+       (a_relay v) (a_halted v) (a_outs v).
+
+(* legacy handler; first the toggle counting of a configuration button *)
+Definition leg_count (c : cfgT) (st_ : Z) (v : mv) : mv :=
+  if cfg_btn c then
+    let v' := if CFG_COUNT_RESET_US <=? u32 (anow32 c v - a_lsc v) then set_cc_v 1 v
+              else if counts_click c st_ then set_cc_v (s8 (a_cc v + 1)) v else v in
+    if on_toggle_en c && (CFG_PRESS_COUNT <=? a_cc v') then ahalt (set_cc_v 0 v') else v'
+  else v.
 Definition legH (c : cfgT) (st_ : Z) (v0 : mv) : mv :=
   let v := set_ton_v false v0 in
-  if a_halted v then v
-  else if st_ =? ST_ACTIVE then onA c true (set_lsc_v (anow32 c v) v) else onI c true v.
+  let v1 := leg_count c st_ v in
+  if a_halted v1 then v1
+  else if st_ =? ST_ACTIVE then
+    let v2 := if on_hold_en c then armt_v v1 else v1 in
+    onA c true (set_lsc_v (anow32 c v2) v2)
+  else onI c true v1.
 
-(* advanced handler, input is not the configuration button *)
+(* advanced handler *)
 Definition advH (c : cfgT) (st_ : Z) (v0 : mv) : mv :=
   let v := set_ton_v false v0 in
   let v1 :=
     if negb (a_cc v =? -1) && counts_click c st_ then
       let va := set_cc_v (s8 (a_cc v + 1)) v in
-      if (is_bi c || is_motion c) && (st_ =? ST_ACTIVE) then
-        let vb := etrig c CAP_TURN_ON va in if is_motion c then onA c true vb else vb
-      else va
+      let vb := if (is_bi c || is_motion c) && (st_ =? ST_ACTIVE) then
+                  let vb' := etrig c CAP_TURN_ON va in if is_motion c then onA c true vb' else vb'
+                else va in
+      if on_toggle_en c && (CFG_PRESS_COUNT <=? a_cc vb) then ahalt (set_cc_v 0 vb) else vb
     else v in
   if a_halted v1 then v1
   else
@@ -108,13 +127,16 @@ Definition notifyV (c : cfgT) (st_ : Z) (v0 : mv) : mv :=
                    (a_relay v) (a_halted v) (a_outs v) in
     if adv then advH c st_ v1 else legH c st_ v1.
 
-(* advanced timer callback, input is not the configuration button *)
+(* advanced timer callback *)
 Definition advT (c : cfgT) (v : mv) : mv :=
   let delta := u32 (anow32 c v - a_lsc v) in
   let v1 :=
     if is_mono c && (a_last v =? ST_ACTIVE) && negb (a_cc v =? -1) then
-      if a_halted v then v
-      else if (a_cc v =? 1) && (HOLD_US <=? delta) then set_ton_v false (set_cc_v 0 (etrig c CAP_HOLD v)) else v
+      let va := if on_hold_en c && (CFG_PRESS_US <=? delta) then ahalt (set_cc_v 0 (set_ton_v false v)) else v in
+      if a_halted va then va
+      else if (a_cc va =? 1) && (HOLD_US <=? delta) then
+        let vb := set_cc_v 0 (etrig c CAP_HOLD va) in if on_hold_en c then vb else set_ton_v false vb
+      else va
     else v in
   if a_halted v1 then v1
   else if (a_last v1 =? ST_INACTIVE) || is_bi c || is_motion c then
@@ -124,10 +146,14 @@ Definition advT (c : cfgT) (v : mv) : mv :=
       if a_maxc v2 <=? 1 then set_cc_v 0 (set_ton_v false v2) else v2
     else v1
   else v1.
+(* legacy timer callback: only the configuration-button hold *)
+Definition legT (c : cfgT) (v : mv) : mv :=
+  if (a_last v =? ST_ACTIVE) && on_hold_en c && (CFG_PRESS_US <=? u32 (anow32 c v - a_lsc v))
+  then ahalt (set_cc_v 0 (set_ton_v false v)) else v.
 
 (* ---------- simulation ---------- *)
 Ltac ga := cbn [a_now a_last a_cc a_maxc a_act a_relg a_lsc a_silent a_ton a_tdue a_tadv a_relay a_halted a_outs
-                view aemit arelc set_cc_v set_ton_v set_lsc_v arm_v anow32].
+                view aemit arelc set_cc_v set_ton_v set_lsc_v arm_v armt_v ahalt anow32].
 
 Lemma emit_view o s : view (emit o s) = aemit o (view s).
 Proof. reflexivity. Qed.
@@ -183,19 +209,35 @@ Proof. reflexivity. Qed.
 Lemma halted_view s : halted s = a_halted (view s). Proof. reflexivity. Qed.
 Lemma cc_view s : cc s = a_cc (view s). Proof. reflexivity. Qed.
 
-Lemma legacy_handler_view c st_ s : cfg_btn c = false -> view (legacy_handler c st_ s) = legH c st_ (view s).
+Lemma halt_view s : view (halt s) = ahalt (view s). Proof. reflexivity. Qed.
+Lemma arm_t_only_view s : view (arm_t s) = armt_v (view s). Proof. reflexivity. Qed.
+Lemma lsc_view s : lsc s = a_lsc (view s). Proof. reflexivity. Qed.
+
+Lemma legacy_handler_viewG c st_ s : view (legacy_handler c st_ s) = legH c st_ (view s).
 Proof.
-  intros Hc. unfold legacy_handler, legH. cbv zeta. rewrite Hc.
-  rewrite halted_view, set_t_on_view. destruct (a_halted _); [reflexivity|].
-  unfold on_hold_en. rewrite Hc. cbn [andb].
+  unfold legacy_handler, legH, leg_count. cbv zeta.
+  set (x := set_t_on false s). assert (Ex : view x = set_ton_v false (view s)) by reflexivity.
+  set (y := set_ton_v false (view s)) in *. clearbody x y.
+  set (x1 := if cfg_btn c then _ else x). set (y1 := if cfg_btn c then _ else y).
+  assert (E1 : view x1 = y1).
+  { subst x1 y1. destruct (cfg_btn c); [|exact Ex].
+    rewrite now32_view, lsc_view, (cc_view x), Ex.
+    set (x' := if CFG_COUNT_RESET_US <=? _ then _ else _). set (y' := if CFG_COUNT_RESET_US <=? _ then _ else _).
+    assert (E' : view x' = y').
+    { subst x' y'. destruct (CFG_COUNT_RESET_US <=? _); [rewrite set_cc_view, Ex; reflexivity|].
+      destruct (counts_click c st_); [rewrite set_cc_view, Ex; reflexivity|exact Ex]. }
+    clearbody x' y'. rewrite (cc_view x'), E'.
+    destruct (on_toggle_en c && _); [rewrite halt_view, set_cc_view, E'; reflexivity|exact E']. }
+  clearbody x1 y1. rewrite halted_view, E1. destruct (a_halted y1); [exact E1|].
   destruct (st_ =? ST_ACTIVE).
-  - rewrite on_active_view, set_lsc_view, now32_view, set_t_on_view. reflexivity.
-  - rewrite on_inactive_view, set_t_on_view. reflexivity.
+  - rewrite on_active_view, set_lsc_view, now32_view.
+    destruct (on_hold_en c); [rewrite arm_t_only_view, E1; reflexivity|rewrite E1; reflexivity].
+  - rewrite on_inactive_view, E1. reflexivity.
 Qed.
 
-Lemma adv_handler_view c st_ s : cfg_btn c = false -> view (adv_handler c st_ s) = advH c st_ (view s).
+Lemma adv_handler_viewG c st_ s : view (adv_handler c st_ s) = advH c st_ (view s).
 Proof.
-  intros Hc. unfold adv_handler, advH. cbv zeta. unfold on_toggle_en. rewrite Hc. cbn [andb].
+  unfold adv_handler, advH. cbv zeta.
   set (x := set_t_on false s). assert (Ex : view x = set_ton_v false (view s)) by reflexivity.
   set (y := set_ton_v false (view s)) in *. clearbody x y.
   rewrite (cc_view x), Ex.
@@ -203,9 +245,14 @@ Proof.
   set (y1 := if negb (a_cc y =? -1) && counts_click c st_ then _ else y).
   assert (E1 : view x1 = y1).
   { subst x1 y1. destruct (_ && counts_click c st_); [|exact Ex].
-    destruct ((is_bi c || is_motion c) && (st_ =? ST_ACTIVE)).
-    - destruct (is_motion c); rewrite ?on_active_view, emit_trigger_view, set_cc_view, Ex; reflexivity.
-    - rewrite set_cc_view, Ex. reflexivity. }
+    set (xb := if (is_bi c || is_motion c) && (st_ =? ST_ACTIVE) then _ else _).
+    set (yb := if (is_bi c || is_motion c) && (st_ =? ST_ACTIVE) then _ else _).
+    assert (Eb : view xb = yb).
+    { subst xb yb. destruct ((is_bi c || is_motion c) && (st_ =? ST_ACTIVE)).
+      - destruct (is_motion c); rewrite ?on_active_view, emit_trigger_view, set_cc_view, Ex; reflexivity.
+      - rewrite set_cc_view, Ex. reflexivity. }
+    clearbody xb yb. rewrite (cc_view xb), Eb.
+    destruct (on_toggle_en c && _); [rewrite halt_view, set_cc_view, Eb; reflexivity|exact Eb]. }
   clearbody x1 y1. rewrite halted_view, E1. destruct (a_halted y1); [exact E1|].
   set (x2 := if st_ =? ST_INACTIVE then _ else x1).
   set (y2 := if st_ =? ST_INACTIVE then _ else y1).
@@ -215,9 +262,9 @@ Proof.
   clearbody x2 y2. rewrite arm_t_view, E2. reflexivity.
 Qed.
 
-Lemma notify_view c st_ s : cfg_btn c = false -> view (notify c st_ s) = notifyV c st_ (view s).
+Lemma notify_viewG c st_ s : view (notify c st_ s) = notifyV c st_ (view s).
 Proof.
-  intros Hc. unfold notify, notifyV. cbv zeta.
+  unfold notify, notifyV. cbv zeta.
   set (x := emit _ s). assert (Ex : view x = aemit (ONotify (now s) st_ (last s) (cc s)) (view s)) by reflexivity.
   change (ONotify (a_now (view s)) st_ (a_last (view s)) (a_cc (view s))) with (ONotify (now s) st_ (last s) (cc s)).
   set (y := aemit _ (view s)) in *. clearbody x y.
@@ -228,13 +275,13 @@ Proof.
     destruct (a_last y =? st_); [rewrite <- Ex; reflexivity|].
     change (act (set_last st_ (set_t_on false (set_silent false x)))) with (a_act (view x)). rewrite Ex.
     destruct (negb (a_act y =? 0)).
-    + rewrite adv_handler_view by assumption. f_equal. rewrite <- Ex. reflexivity.
-    + rewrite legacy_handler_view by assumption. f_equal. rewrite <- Ex. reflexivity.
+    + rewrite adv_handler_viewG. f_equal. rewrite <- Ex. reflexivity.
+    + rewrite legacy_handler_viewG. f_equal. rewrite <- Ex. reflexivity.
 Qed.
 
-Lemma adv_timer_view c s : cfg_btn c = false -> view (adv_timer c s) = advT c (view s).
+Lemma adv_timer_viewG c s : view (adv_timer c s) = advT c (view s).
 Proof.
-  intros Hc. unfold adv_timer, advT. cbv zeta. unfold on_hold_en. rewrite Hc. cbn [andb].
+  unfold adv_timer, advT. cbv zeta.
   rewrite now32_view. change (lsc s) with (a_lsc (view s)). change (last s) with (a_last (view s)).
   change (cc s) with (a_cc (view s)).
   set (d := u32 (anow32 c (view s) - a_lsc (view s))).
@@ -242,9 +289,12 @@ Proof.
   set (y1 := if is_mono c && (a_last (view s) =? ST_ACTIVE) && negb (a_cc (view s) =? -1) then _ else view s).
   assert (E1 : view x1 = y1).
   { subst x1 y1. destruct (is_mono c && _ && _); [|reflexivity].
-    rewrite halted_view. destruct (a_halted (view s)) eqn:Hh; [reflexivity|].
-    change (cc s) with (a_cc (view s)). destruct ((a_cc (view s) =? 1) && (HOLD_US <=? d)); [|reflexivity].
-    rewrite set_t_on_view, set_cc_view, emit_trigger_view. reflexivity. }
+    set (xa := if on_hold_en c && (CFG_PRESS_US <=? d) then _ else s).
+    set (ya := if on_hold_en c && (CFG_PRESS_US <=? d) then _ else view s).
+    assert (Ea : view xa = ya) by (subst xa ya; destruct (on_hold_en c && _); reflexivity).
+    clearbody xa ya. rewrite halted_view, Ea. destruct (a_halted ya); [exact Ea|].
+    rewrite (cc_view xa), Ea. destruct ((a_cc ya =? 1) && (HOLD_US <=? d)); [|exact Ea].
+    destruct (on_hold_en c); rewrite ?set_t_on_view, set_cc_view, emit_trigger_view, Ea; reflexivity. }
   clearbody x1 y1. rewrite halted_view, E1. destruct (a_halted y1); [exact E1|].
   change (last x1) with (a_last (view x1)). rewrite E1.
   destruct ((a_last y1 =? ST_INACTIVE) || is_bi c || is_motion c); [|exact E1].
@@ -258,6 +308,20 @@ Proof.
     change (maxc x2) with (a_maxc (view x2)). rewrite E2.
     destruct (a_maxc y2 <=? 1); [rewrite set_cc_view, set_t_on_view, E2; reflexivity|exact E2].
 Qed.
+Lemma legacy_timer_viewG c s : view (legacy_timer c s) = legT c (view s).
+Proof.
+  unfold legacy_timer, legT. rewrite now32_view. change (lsc s) with (a_lsc (view s)). change (last s) with (a_last (view s)).
+  destruct (_ && _ && _); reflexivity.
+Qed.
+
+Lemma legacy_handler_view c st_ s : cfg_btn c = false -> view (legacy_handler c st_ s) = legH c st_ (view s).
+Proof. intros _. apply legacy_handler_viewG. Qed.
+Lemma adv_handler_view c st_ s : cfg_btn c = false -> view (adv_handler c st_ s) = advH c st_ (view s).
+Proof. intros _. apply adv_handler_viewG. Qed.
+Lemma notify_view c st_ s : cfg_btn c = false -> view (notify c st_ s) = notifyV c st_ (view s).
+Proof. intros _. apply notify_viewG. Qed.
+Lemma adv_timer_view c s : cfg_btn c = false -> view (adv_timer c s) = advT c (view s).
+Proof. intros _. apply adv_timer_viewG. Qed.
 
 (* ---------- micro-steps seen through the view ---------- *)
 Inductive astep := ATime (t : Z) | ANotify (st_ : Z) | ATim | AMot | AOut (o : out) | ANop.
@@ -279,7 +343,7 @@ Definition aact (c : cfgT) (a : astep) (v : mv) : mv :=
   | ATime t => if a_now v <=? t then set_now_v t v else v
   | ANotify st_ => notifyV c st_ v
   | ATim => if a_ton v && (a_tdue v <=? a_now v)
-            then let v1 := set_tdue_v (a_tdue v + CYCLE_US) v in if a_tadv v then advT c v1 else v1
+            then let v1 := set_tdue_v (a_tdue v + CYCLE_US) v in if a_tadv v then advT c v1 else legT c v1
             else v
   | AMot => motV c v
   | AOut o => aemit o v
@@ -303,13 +367,9 @@ Definition is_trig (m : micro) : bool := match m with MTrig _ => true | _ => fal
 Lemma mstep_view c m s : view (mstep c m s) = view (mact c m s).
 Proof. reflexivity. Qed.
 
-Lemma legacy_timer_id c s : cfg_btn c = false -> legacy_timer c s = s.
-Proof. intros Hc. unfold legacy_timer, on_hold_en. rewrite Hc. cbn [andb]. rewrite andb_false_r. reflexivity. Qed.
-
-Theorem sim_step c m s : cfg_btn c = false -> is_trig m = false ->
-  view (mstep c m s) = aact c (abs c m s) (view s).
+Theorem sim_stepG c m s : is_trig m = false -> view (mstep c m s) = aact c (abs c m s) (view s).
 Proof.
-  intros Hc Ht. rewrite mstep_view. unfold aact. change (a_halted (view s)) with (halted s).
+  intros Ht. rewrite mstep_view. unfold aact. change (a_halted (view s)) with (halted s).
   destruct (halted s) eqn:Hs; [rewrite mact_halted by assumption; reflexivity|].
   destruct m; try discriminate.
   - (* MTime *) unfold mact, abs. rewrite Hs. change (a_now (view s)) with (now s). destruct (now s <=? t); reflexivity.
@@ -322,7 +382,7 @@ Proof.
     + destruct (caseB (rearm_d s)) eqn:EB.
       * rewrite deb_cb_B by assumption. cbv zeta.
         assert (E : view (notify c (stl c (lvl (rearm_d s))) (rearm_d s)) = notifyV c (stl c (lvl s)) (view s)).
-        { rewrite notify_view by assumption. reflexivity. }
+        { rewrite notify_viewG. reflexivity. }
         set (y := notify c (stl c (lvl (rearm_d s))) (rearm_d s)) in *.
         destruct (halted y); [exact E|]. rewrite <- E. reflexivity.
       * rewrite deb_cb_C by assumption. reflexivity.
@@ -330,8 +390,8 @@ Proof.
     change (a_ton (view s)) with (t_on s). change (a_tdue (view s)) with (t_due s). change (a_now (view s)) with (now s).
     destruct (t_on s && (t_due s <=? now s)); [|reflexivity]. cbv zeta.
     change (a_tadv (view s)) with (t_adv s). destruct (t_adv s).
-    + rewrite adv_timer_view by assumption. reflexivity.
-    + rewrite legacy_timer_id by assumption. reflexivity.
+    + rewrite adv_timer_viewG. reflexivity.
+    + rewrite legacy_timer_viewG. reflexivity.
   - (* MMot *) unfold mact, abs. rewrite Hs. destruct (m_on s && (m_due s <=? now s)); [|reflexivity].
     unfold mot_cb, motV. rewrite relc_view.
     change (view (set_m_on false s)) with (view s).
@@ -341,17 +401,23 @@ Proof.
     destruct (a_last (view s) =? ST_INACTIVE); [rewrite on_inactive_view; reflexivity|reflexivity].
   - (* MFault *) unfold mact, abs. rewrite Hs. reflexivity.
 Qed.
+Theorem sim_step c m s : cfg_btn c = false -> is_trig m = false ->
+  view (mstep c m s) = aact c (abs c m s) (view s).
+Proof. intros _. apply sim_stepG. Qed.
 
 Fixpoint atrace (c : cfgT) (ms : list micro) (s : st) : list astep :=
   match ms with [] => [] | m :: ms' => abs c m s :: atrace c ms' (mstep c m s) end.
-Theorem sim_run c ms : forall s, cfg_btn c = false -> forallb (fun m => negb (is_trig m)) ms = true ->
+Theorem sim_runG c ms : forall s, forallb (fun m => negb (is_trig m)) ms = true ->
   view (mrun c ms s) = arun c (atrace c ms s) (view s).
 Proof.
-  induction ms as [|m ms IH]; intros s Hc Hn; [reflexivity|].
+  induction ms as [|m ms IH]; intros s Hn; [reflexivity|].
   cbn in Hn. apply andb_prop in Hn as [H1 H2]. apply negb_true_iff in H1.
-  rewrite mrun_cons. cbn [atrace]. unfold arun. cbn [fold_left]. rewrite <- sim_step by assumption.
+  rewrite mrun_cons. cbn [atrace]. unfold arun. cbn [fold_left]. rewrite <- sim_stepG by assumption.
   apply IH; assumption.
 Qed.
+Theorem sim_run c ms : forall s, cfg_btn c = false -> forallb (fun m => negb (is_trig m)) ms = true ->
+  view (mrun c ms s) = arun c (atrace c ms s) (view s).
+Proof. intros s _. apply sim_runG. Qed.
 
 (* ---------- plain mode on the machine ---------- *)
 Definition gpv (v : mv) : list out := filter is_gpio (a_outs v).
@@ -378,7 +444,7 @@ Proof.
   split; [|split]; intros H0; apply Z.eqb_eq in H0; rewrite H0; repeat split; reflexivity.
 Qed.
 
-Theorem plain_notify_v c st_ v :
+Theorem plain_notify_v c st_ v : cfg_btn c = false ->
   a_act v = 0 -> asilent_ret c v = false -> a_halted v = false -> a_last v <> st_ ->
   (st_ = ST_ACTIVE \/ st_ = ST_INACTIVE) -> (a_relay v = 0 \/ a_relay v = 1) ->
   let r := notifyV c st_ v in
@@ -390,12 +456,12 @@ Theorem plain_notify_v c st_ v :
     | None => a_relay r = a_relay v /\ gpv r = gpv v
     end).
 Proof.
-  destruct v as [nw la c0 mx ac rg ls si tn td ta rl hl ou]. cbn [a_act a_halted a_last a_relay a_now].
+  intros Hcfg. destruct v as [nw la c0 mx ac rg ls si tn td ta rl hl ou]. cbn [a_act a_halted a_last a_relay a_now].
   intros -> Hs -> Hl Hst Hrel. cbv zeta.
   unfold notifyV. cbv zeta.
   change (asilent_ret c (aemit _ _)) with (asilent_ret c (mkmv nw la c0 mx 0 rg ls si tn td ta rl false ou)). rewrite Hs.
   gv. destruct (la =? st_) eqn:E; [apply Z.eqb_eq in E; congruence|]. kc. gv.
-  unfold legH. cbv zeta. gv. unfold plain_expect.
+  unfold legH, leg_count. cbv zeta. rewrite Hcfg. unfold on_hold_en. rewrite Hcfg. cbn [andb]. gv. unfold plain_expect.
   destruct (types_excl c) as (X1 & X2 & X3).
   destruct Hst as [-> | ->]; kc; cbv iota.
   - unfold onA, arelc. cbv zeta. gv. kc. gv.
@@ -474,7 +540,7 @@ Proof.
   repeat match goal with |- context[if ?b then _ else _] => destruct b end; gv; auto; apply sw_inv; auto.
 Qed.
 
-Theorem plain_step_v c a v :
+Theorem plain_step_v c a v : cfg_btn c = false ->
   PlainV v -> (forall o, a = AOut o -> is_gpio o = false) ->
   (forall st_, a = ANotify st_ -> st_ = ST_ACTIVE \/ st_ = ST_INACTIVE) ->
   let r := aact c a v in
@@ -495,7 +561,7 @@ Theorem plain_step_v c a v :
   | _ => a_relay r = a_relay v /\ gpv r = gpv v
   end.
 Proof.
-  intros [Pa Pt Pr] Ho Hn. cbv zeta. unfold aact.
+  intros Hcfg [Pa Pt Pr] Ho Hn. cbv zeta. unfold aact.
   destruct (a_halted v) eqn:Hh.
   { split; [constructor; assumption|]. destruct a; cbn [negb andb]; try exact I; split; reflexivity. }
   destruct a.
@@ -503,7 +569,7 @@ Proof.
   - cbn [negb andb]. destruct (effV c st_ v) eqn:EF.
     + unfold effV in EF. apply andb_prop in EF as [E1 E2]. apply negb_true_iff in E1, E2. apply Z.eqb_neq in E2.
       pose proof (Hn st_ eq_refl) as Hst.
-      destruct (plain_notify_v c st_ v Pa E1 Hh E2 Hst Pr) as (n1&n2&n3&n4&n5&n6). cbv zeta in *.
+      destruct (plain_notify_v c st_ v Hcfg Pa E1 Hh E2 Hst Pr) as (n1&n2&n3&n4&n5&n6). cbv zeta in *.
       split; [|auto].
       constructor; try assumption.
       destruct (arelc v) eqn:RC; [specialize (n6 eq_refl)|destruct (n5 eq_refl) as [n5' _]; rewrite n5'; exact Pr].
@@ -550,9 +616,344 @@ Proof.
   { intros st_ E. destruct m; cbn in E; try discriminate.
     - destruct (_ && _) in E; [|discriminate]. injection E as <-. unfold stl. destruct (_ =? _); auto.
     - destruct (_ && _) in E; discriminate. }
-  destruct (plain_step_v c (abs c m s) (view s) HP Ho Hn) as [P1 P2]. cbv zeta in *.
+  destruct (plain_step_v c (abs c m s) (view s) Hc HP Ho Hn) as [P1 P2]. cbv zeta in *.
   split; [exact P1|].
   destruct (abs c m s) eqn:EA; try exact P2.
   destruct (negb (a_halted (view s)) && effV c st_ (view s)); [|exact P2].
   apply P2. apply Hn. reflexivity.
+Qed.
+
+(* ---------- plain mode: the two steps left open above ---------- *)
+(* the motion-sensor start-up timer sets the wired relay to the recognised state *)
+Lemma plain_mot_v c v : PlainV v -> a_halted v = false ->
+  (a_last v = ST_ACTIVE \/ a_last v = ST_INACTIVE) ->
+  let r := aact c AMot v in
+  if arelc v && is_motion c then
+    a_relay r = a_last v /\ gpv r = (if a_last v =? a_relay v then [] else [OGpio (a_now v + RELAY_D1) (a_last v)]) ++ gpv v
+  else a_relay r = a_relay v /\ gpv r = gpv v.
+Proof.
+  intros [Pa Pt Pr] Hh Hl. cbv zeta. unfold aact. rewrite Hh. unfold motV.
+  destruct (arelc v && is_motion c) eqn:E; [|auto].
+  apply andb_prop in E as [E1 E2]. destruct (types_excl c) as (_ & _ & X3). specialize (X3 E2).
+  destruct v as [nw la c0 mx ac rg ls si tn td ta rl hl ou]. cbn [a_act a_halted a_last a_relay a_now a_ton] in *. subst ac.
+  unfold arelc in E1. cbn [a_relg] in E1.
+  destruct Hl as [-> | ->]; kc; cbv iota.
+  - unfold onA, arelc. cbv zeta. gv. rewrite E1, E2. rewrite !orb_true_r. gv. kc. gv.
+    unfold sw. cbv zeta. gv. kc. cbv iota. split; [reflexivity|].
+    destruct Pr as [-> | ->]; kc; cbv iota; reflexivity.
+  - unfold onI, arelc. cbv zeta. gv. rewrite E1, E2. rewrite !orb_true_r. gv. kc. gv.
+    unfold sw. cbv zeta. gv. kc. cbv iota. split; [reflexivity|].
+    destruct Pr as [-> | ->]; kc; cbv iota; reflexivity.
+Qed.
+
+(* a trigger configuration from the server never moves the relay; it leaves plain mode exactly when it enables something *)
+Lemma plain_trig c mask s : a_ton (view s) = false ->
+  let r := view (mstep c (MTrig mask) s) in
+  a_relay r = relay s /\ gpv r = gpv (view s) /\ a_ton r = false /\
+  a_act r = (if halted s then act s else Z.land (cap c) mask).
+Proof.
+  intros Ht. cbv zeta. rewrite mstep_view. unfold mact. destruct (halted s); [repeat split; exact Ht|].
+  unfold set_triggers. cbv zeta.
+  change (a_ton (view s)) with (t_on s) in Ht.
+  repeat match goal with |- context[if ?b then _ else _] => destruct b end;
+    unfold view, gpv; gs; cbn [a_relay a_outs a_ton a_act filter is_gpio]; repeat split; try assumption; reflexivity.
+Qed.
+
+Theorem plain_all_thm c m s :
+  cfg_btn c = false -> PlainV (view s) -> halted s = false ->
+  let r := view (mstep c m s) in let v := view s in
+  match m with
+  | MTrig mask => a_relay r = a_relay v /\ gpv r = gpv v /\ a_ton r = false /\ a_act r = Z.land (cap c) mask
+  | _ =>
+    PlainV r /\
+    match abs c m s with
+    | ANotify st_ =>
+        if effV c st_ v then
+          a_last r = st_ /\
+          (arelc v = false -> a_relay r = a_relay v /\ gpv r = gpv v) /\
+          (arelc v = true ->
+            match plain_expect c st_ (a_relay v) with
+            | Some h => a_relay r = h /\ gpv r = (if h =? a_relay v then [] else [OGpio (a_now v + RELAY_D1) h]) ++ gpv v
+            | None => a_relay r = a_relay v /\ gpv r = gpv v
+            end)
+        else a_relay r = a_relay v /\ gpv r = gpv v
+    | AMot =>
+        a_last v = ST_ACTIVE \/ a_last v = ST_INACTIVE ->
+        if arelc v && is_motion c then
+          a_relay r = a_last v /\ gpv r = (if a_last v =? a_relay v then [] else [OGpio (a_now v + RELAY_D1) (a_last v)]) ++ gpv v
+        else a_relay r = a_relay v /\ gpv r = gpv v
+    | _ => a_relay r = a_relay v /\ gpv r = gpv v
+    end
+  end.
+Proof.
+  intros Hc HP Hh. cbv zeta.
+  assert (G : forall m', is_trig m' = false ->
+     PlainV (view (mstep c m' s)) /\
+     match abs c m' s with
+     | ANotify st_ =>
+        if effV c st_ (view s) then
+          a_last (view (mstep c m' s)) = st_ /\
+          (arelc (view s) = false -> a_relay (view (mstep c m' s)) = a_relay (view s) /\ gpv (view (mstep c m' s)) = gpv (view s)) /\
+          (arelc (view s) = true ->
+            match plain_expect c st_ (a_relay (view s)) with
+            | Some h => a_relay (view (mstep c m' s)) = h /\ gpv (view (mstep c m' s)) = (if h =? a_relay (view s) then [] else [OGpio (a_now (view s) + RELAY_D1) h]) ++ gpv (view s)
+            | None => a_relay (view (mstep c m' s)) = a_relay (view s) /\ gpv (view (mstep c m' s)) = gpv (view s)
+            end)
+        else a_relay (view (mstep c m' s)) = a_relay (view s) /\ gpv (view (mstep c m' s)) = gpv (view s)
+     | AMot => True
+     | _ => a_relay (view (mstep c m' s)) = a_relay (view s) /\ gpv (view (mstep c m' s)) = gpv (view s)
+     end).
+  { intros m' Hm. pose proof (plain_once_thm c m' s Hc Hm HP) as P. cbv zeta in P.
+    change (a_halted (view s)) with (halted s) in P. rewrite Hh in P. cbn [negb andb] in P. exact P. }
+  destruct m as [t|l| | | |mask|].
+  - destruct (G (MTime t) eq_refl) as [P1 P2]. split; [exact P1|]. cbn [abs] in *. exact P2.
+  - destruct (G (MIn l) eq_refl) as [P1 P2]. split; [exact P1|]. cbn [abs] in *. exact P2.
+  - destruct (G MDeb eq_refl) as [P1 P2]. split; [exact P1|]. cbn [abs] in *. destruct (d_on s && (d_due s <=? now s) && caseB (rearm_d s)); exact P2.
+  - destruct (G MTim eq_refl) as [P1 P2]. split; [exact P1|]. cbn [abs] in *. exact P2.
+  - destruct (G MMot eq_refl) as [P1 P2]. split; [exact P1|]. cbn [abs] in *.
+    destruct (m_on s && (m_due s <=? now s)) eqn:E; [|exact P2].
+    intros Hl. rewrite sim_step by (try assumption; reflexivity). cbn [abs]. rewrite E.
+    apply plain_mot_v; assumption.
+  - destruct (plain_trig c mask s (pv_ton _ HP)) as (a1 & a2 & a3 & a4). cbv zeta in *. rewrite Hh in a4. auto.
+  - destruct (G MFault eq_refl) as [P1 P2]. split; [exact P1|]. cbn [abs] in *. exact P2.
+Qed.
+
+(* ====================== plain mode for ANY input, the configuration button included ======================
+   The legacy handler of a configuration button additionally counts toggles (10 within 2 s gaps enter configuration
+   mode) and arms the button timer for the 5 s hold; the legacy timer callback only ever enters configuration mode. *)
+Lemma plain_act_v c st_ v :
+  a_act v = 0 -> (st_ = ST_ACTIVE \/ st_ = ST_INACTIVE) -> (a_relay v = 0 \/ a_relay v = 1) ->
+  let r := if st_ =? ST_ACTIVE then onA c true v else onI c true v in
+  a_last r = a_last v /\ a_act r = 0 /\ a_ton r = a_ton v /\ a_tadv r = a_tadv v /\ a_halted r = a_halted v /\
+  (arelc v = false -> a_relay r = a_relay v /\ gpv r = gpv v) /\
+  (arelc v = true ->
+    match plain_expect c st_ (a_relay v) with
+    | Some h => a_relay r = h /\ gpv r = (if h =? a_relay v then [] else [OGpio (a_now v + RELAY_D1) h]) ++ gpv v
+    | None => a_relay r = a_relay v /\ gpv r = gpv v
+    end).
+Proof.
+  destruct v as [nw la c0 mx ac rg ls si tn td ta rl hl ou]. cbn [a_act a_halted a_last a_relay a_now a_ton a_tadv].
+  intros -> Hst Hrel. cbv zeta. unfold plain_expect.
+  destruct (types_excl c) as (X1 & X2 & X3).
+  destruct Hst as [-> | ->]; kc; cbv iota.
+  - unfold onA, arelc. cbv zeta. gv. kc. gv.
+    destruct (negb (rg =? NOREL)) eqn:ER; rewrite ?andb_true_r, ?andb_false_r.
+    + destruct (is_mono c) eqn:T1.
+      { destruct (X1 eq_refl) as (T2 & T3 & T4). rewrite T2, T3, ?T4. gv.
+        destruct (hasb (flags c) FLAG_TRIGGER_ON_PRESS); gv.
+        - unfold sw. cbv zeta. gv. kc. cbv iota.
+          destruct Hrel as [-> | ->]; kc; cbv iota; gv; repeat split; intros; try discriminate; reflexivity.
+        - repeat split; intros; try discriminate; reflexivity. }
+      destruct (is_bi c) eqn:T2.
+      { destruct (X2 eq_refl) as (T3 & T4). rewrite T3, ?T4. gv.
+        unfold sw. cbv zeta. gv. kc. cbv iota.
+        destruct Hrel as [-> | ->]; kc; cbv iota; gv; repeat split; intros; try discriminate; reflexivity. }
+      destruct (is_motion c) eqn:T3; gv.
+      { unfold sw. cbv zeta. gv. kc. cbv iota.
+        destruct Hrel as [-> | ->]; kc; cbv iota; gv; repeat split; intros; try discriminate; reflexivity. }
+      destruct (is_sensor c && _); gv; repeat split; intros; try discriminate; reflexivity.
+    + destruct (is_sensor c && _); gv; repeat split; intros; try discriminate; reflexivity.
+  - unfold onI, arelc. cbv zeta. gv.
+    destruct (negb (rg =? NOREL)) eqn:ER; rewrite ?andb_true_r, ?andb_false_r.
+    + destruct (is_mono c) eqn:T1.
+      { destruct (X1 eq_refl) as (T2 & T3 & T4). rewrite T2, T3, ?T4. gv.
+        destruct (hasb (flags c) FLAG_TRIGGER_ON_PRESS); gv.
+        - repeat split; intros; try discriminate; reflexivity.
+        - unfold sw. cbv zeta. gv. kc. cbv iota.
+          destruct Hrel as [-> | ->]; kc; cbv iota; gv; repeat split; intros; try discriminate; reflexivity. }
+      destruct (is_bi c) eqn:T2.
+      { destruct (X2 eq_refl) as (T3 & T4). rewrite T3, ?T4. gv.
+        unfold sw. cbv zeta. gv. kc. cbv iota.
+        destruct Hrel as [-> | ->]; kc; cbv iota; gv; repeat split; intros; try discriminate; reflexivity. }
+      destruct (is_motion c) eqn:T3; gv.
+      { kc. gv. unfold sw. cbv zeta. gv. kc. cbv iota.
+        destruct Hrel as [-> | ->]; kc; cbv iota; gv; repeat split; intros; try discriminate; reflexivity. }
+      destruct (is_sensor c && _); gv; repeat split; intros; try discriminate; reflexivity.
+    + destruct (is_sensor c && _); gv; repeat split; intros; try discriminate; reflexivity.
+Qed.
+
+Record PlainC (v : mv) : Prop := { pc_act : a_act v = 0; pc_rel : a_relay v = 0 \/ a_relay v = 1;
+                                   pc_tim : a_ton v = true -> a_tadv v = false }.
+
+(* an effective notify in plain mode: either it is the toggle that enters configuration mode (nothing else happens),
+   or the relay is acted upon exactly as for an ordinary input *)
+Theorem plain_notify_cfg_v c st_ v :
+  PlainC v -> asilent_ret c v = false -> a_halted v = false -> a_last v <> st_ ->
+  (st_ = ST_ACTIVE \/ st_ = ST_INACTIVE) ->
+  let r := notifyV c st_ v in
+  (a_halted r = true /\ a_relay r = a_relay v /\ gpv r = gpv v /\ exists t, hd_error (a_outs r) = Some (OCfgmode t)) \/
+  (a_halted r = false /\ PlainC r /\ a_last r = st_ /\
+   (arelc v = false -> a_relay r = a_relay v /\ gpv r = gpv v) /\
+   (arelc v = true ->
+     match plain_expect c st_ (a_relay v) with
+     | Some h => a_relay r = h /\ gpv r = (if h =? a_relay v then [] else [OGpio (a_now v + RELAY_D1) h]) ++ gpv v
+     | None => a_relay r = a_relay v /\ gpv r = gpv v
+     end)).
+Proof.
+  intros [Pa Pr Pt] Hs Hh Hl Hst. cbv zeta.
+  destruct v as [nw la c0 mx ac rg ls si tn td ta rl hl ou]. cbn [a_act a_halted a_last a_relay a_now a_ton a_tadv] in *.
+  subst ac hl. unfold notifyV. cbv zeta.
+  change (asilent_ret c (aemit _ _)) with (asilent_ret c (mkmv nw la c0 mx 0 rg ls si tn td ta rl false ou)). rewrite Hs.
+  gv. destruct (la =? st_) eqn:E; [apply Z.eqb_eq in E; congruence|]. kc. gv.
+  unfold legH. cbv zeta. unfold set_ton_v. gv.
+  (* the counting part of a configuration button: a new counter value k', possibly configuration mode *)
+  set (pre := fun k' => mkmv nw st_ k' mx 0 rg ls false false td false rl false (ONotify nw st_ la c0 :: ou)).
+  change (mkmv nw st_ c0 mx 0 rg ls false false td false rl false (ONotify nw st_ la c0 :: ou)) with (pre c0).
+  assert (Cnt : exists k', leg_count c st_ (pre c0) = pre k' \/ leg_count c st_ (pre c0) = ahalt (pre 0)).
+  { unfold leg_count. destruct (cfg_btn c); [|exists c0; left; reflexivity]. cbv zeta.
+    set (k' := if CFG_COUNT_RESET_US <=? u32 (anow32 c (pre c0) - a_lsc (pre c0)) then 1
+               else if counts_click c st_ then s8 (c0 + 1) else c0).
+    exists k'.
+    assert (Ek : (if CFG_COUNT_RESET_US <=? u32 (anow32 c (pre c0) - a_lsc (pre c0)) then set_cc_v 1 (pre c0)
+                  else if counts_click c st_ then set_cc_v (s8 (a_cc (pre c0) + 1)) (pre c0) else pre c0) = pre k').
+    { subst k'. destruct (CFG_COUNT_RESET_US <=? _); [reflexivity|]. destruct (counts_click c st_); reflexivity. }
+    rewrite Ek. destruct (on_toggle_en c && _); [right|left]; reflexivity. }
+  assert (Tail : forall k',
+     let v1 := pre k' in
+     let r := if st_ =? ST_ACTIVE
+              then (let v2 := if on_hold_en c then armt_v v1 else v1 in onA c true (set_lsc_v (anow32 c v2) v2))
+              else onI c true v1 in
+     a_halted r = false /\ PlainC r /\ a_last r = st_ /\
+     (negb (rg =? NOREL) = false -> a_relay r = rl /\ gpv r = gpv (mkmv nw la c0 mx 0 rg ls si tn td ta rl false ou)) /\
+     (negb (rg =? NOREL) = true ->
+       match plain_expect c st_ rl with
+       | Some h => a_relay r = h /\ gpv r = (if h =? rl then [] else [OGpio (nw + RELAY_D1) h]) ++ gpv (mkmv nw la c0 mx 0 rg ls si tn td ta rl false ou)
+       | None => a_relay r = rl /\ gpv r = gpv (mkmv nw la c0 mx 0 rg ls si tn td ta rl false ou)
+       end)).
+  { intros k'. cbv zeta.
+    destruct Hst as [-> | ->]; kc; cbv iota.
+    - set (w := set_lsc_v _ _).
+      assert (W : a_act w = 0 /\ a_relay w = rl /\ a_last w = ST_ACTIVE /\ a_halted w = false /\ a_tadv w = false /\
+                  arelc w = negb (rg =? NOREL) /\ a_now w = nw /\ gpv w = gpv (mkmv nw la c0 mx 0 rg ls si tn td ta rl false ou))
+        by (subst w pre; destruct (on_hold_en c); unfold set_lsc_v, armt_v, arelc, gpv; gv; repeat split).
+      destruct W as (w1 & w2 & w3 & w4 & w5 & w6 & w7 & w8).
+      destruct (plain_act_v c ST_ACTIVE w w1 ltac:(auto) ltac:(rewrite w2; exact Pr)) as (n1 & n2 & n3 & n4 & n5 & n6 & n7).
+      cbv zeta in *. replace (ST_ACTIVE =? ST_ACTIVE) with true in * by reflexivity. cbv iota in *.
+      rewrite w6, w2, w7, w8 in *.
+      split; [congruence|]. split.
+      + constructor; [exact n2| |intros _; congruence].
+        destruct (negb (rg =? NOREL)); [specialize (n7 eq_refl)|destruct (n6 eq_refl) as [-> _]; exact Pr].
+        unfold plain_expect in n7.
+        destruct (is_mono c); [destruct (Bool.eqb _ _)|destruct (is_bi c); [|destruct (is_motion c)]];
+          destruct n7 as [-> _]; try exact Pr; try (destruct Pr as [-> | ->]; auto; fail); auto.
+      + split; [congruence|]. split; assumption.
+    - set (w := pre k').
+      assert (W : a_act w = 0 /\ a_relay w = rl /\ a_last w = ST_INACTIVE /\ a_halted w = false /\ a_tadv w = false /\
+                  arelc w = negb (rg =? NOREL) /\ a_now w = nw /\ gpv w = gpv (mkmv nw la c0 mx 0 rg ls si tn td ta rl false ou))
+        by (subst w pre; unfold arelc, gpv; gv; repeat split).
+      destruct W as (w1 & w2 & w3 & w4 & w5 & w6 & w7 & w8).
+      destruct (plain_act_v c ST_INACTIVE w w1 ltac:(auto) ltac:(rewrite w2; exact Pr)) as (n1 & n2 & n3 & n4 & n5 & n6 & n7).
+      cbv zeta in *. replace (ST_INACTIVE =? ST_ACTIVE) with false in * by reflexivity. cbv iota in *.
+      rewrite w6, w2, w7, w8 in *.
+      split; [congruence|]. split.
+      + constructor; [exact n2| |intros _; congruence].
+        destruct (negb (rg =? NOREL)); [specialize (n7 eq_refl)|destruct (n6 eq_refl) as [-> _]; exact Pr].
+        unfold plain_expect in n7.
+        destruct (is_mono c); [destruct (Bool.eqb _ _)|destruct (is_bi c); [|destruct (is_motion c)]];
+          destruct n7 as [-> _]; try exact Pr; try (destruct Pr as [-> | ->]; auto; fail); auto.
+      + split; [congruence|]. split; assumption. }
+  unfold arelc. gv.
+  destruct Cnt as (k' & [Ec | Ec]); rewrite Ec.
+  - right. replace (a_halted (pre k')) with false by reflexivity. cbv iota. apply (Tail k').
+  - left. unfold pre, ahalt, gpv. gv. repeat split. exists nw. reflexivity.
+Qed.
+
+Lemma tadv_sw hi v : a_tadv (sw hi v) = a_tadv v. Proof. reflexivity. Qed.
+Lemma tadv_onA c lg v : a_tadv (onA c lg v) = a_tadv v.
+Proof. unfold onA. cbv zeta. repeat match goal with |- context[if ?b then _ else _] => destruct b end; reflexivity. Qed.
+Lemma tadv_onI c lg v : a_tadv (onI c lg v) = a_tadv v.
+Proof. unfold onI. cbv zeta. repeat match goal with |- context[if ?b then _ else _] => destruct b end; reflexivity. Qed.
+Lemma notify_noneff_tadv c st_ v : effV c st_ v = false -> a_tadv (notifyV c st_ v) = a_tadv v.
+Proof.
+  destruct v as [nw la c0 mx ac rg ls si tn td ta rl hl ou]. unfold effV. cbn [a_last]. intros H.
+  unfold notifyV. cbv zeta.
+  change (asilent_ret c (aemit _ _)) with (asilent_ret c (mkmv nw la c0 mx ac rg ls si tn td ta rl hl ou)).
+  destruct (asilent_ret c _); gv; [reflexivity|]. cbn [negb andb] in H. apply negb_false_iff in H. rewrite H. reflexivity.
+Qed.
+
+Theorem plain_cfg_step_v c a v :
+  PlainC v -> a_halted v = false -> (forall o, a = AOut o -> is_gpio o = false) ->
+  (forall st_, a = ANotify st_ -> st_ = ST_ACTIVE \/ st_ = ST_INACTIVE) ->
+  let r := aact c a v in
+  (a_halted r = true /\ a_relay r = a_relay v /\ gpv r = gpv v) \/
+  (a_halted r = false /\ PlainC r /\
+   match a with
+   | ANotify st_ =>
+       if effV c st_ v then
+         a_last r = st_ /\
+         (arelc v = false -> a_relay r = a_relay v /\ gpv r = gpv v) /\
+         (arelc v = true ->
+           match plain_expect c st_ (a_relay v) with
+           | Some h => a_relay r = h /\ gpv r = (if h =? a_relay v then [] else [OGpio (a_now v + RELAY_D1) h]) ++ gpv v
+           | None => a_relay r = a_relay v /\ gpv r = gpv v
+           end)
+       else a_relay r = a_relay v /\ gpv r = gpv v
+   | AMot => True
+   | _ => a_relay r = a_relay v /\ gpv r = gpv v
+   end).
+Proof.
+  intros HP Hh Ho Hn. cbv zeta. pose proof HP as [Pa Pr Pt]. unfold aact. rewrite Hh.
+  destruct a.
+  - right. destruct (a_now v <=? t); unfold set_now_v; gv; (split; [exact Hh|split; [constructor; gv; assumption|auto]]).
+  - destruct (effV c st_ v) eqn:EF.
+    + unfold effV in EF. apply andb_prop in EF as [E1 E2]. apply negb_true_iff in E1, E2. apply Z.eqb_neq in E2.
+      destruct (plain_notify_cfg_v c st_ v HP E1 Hh E2 (Hn st_ eq_refl)) as [(h1 & h2 & h3 & _)|(h1 & h2 & h3 & h4 & h5)]; cbv zeta in *.
+      * left. auto.
+      * right. auto.
+    + right. destruct (notify_noneff_v c st_ v EF) as (m1&m2&m3&m4&m5). cbv zeta in *.
+      pose proof (notify_noneff_tadv c st_ v EF) as m6.
+      split; [congruence|]. split; [constructor; [congruence|congruence|intros H; rewrite m6; apply Pt; congruence]|auto].
+  - destruct (a_ton v && (a_tdue v <=? a_now v)) eqn:E; [|right; split; [exact Hh|split; [exact HP|auto]]].
+    apply andb_prop in E as [E1 _]. rewrite (Pt E1). cbv zeta. unfold legT.
+    destruct (_ && _ && _).
+    + left. unfold ahalt, set_cc_v, set_ton_v, set_tdue_v, gpv. gv. auto.
+    + right. unfold set_tdue_v, gpv. gv. split; [exact Hh|]. split; [constructor; gv; assumption|auto].
+  - right. unfold motV.
+    repeat match goal with |- context[if ?b then _ else _] => destruct b end; try (split; [exact Hh|split; [exact HP|exact I]]).
+    + destruct (onA_inv c false v Pr) as (x1&x2&x3). pose proof (tadv_onA c false v) as x4.
+      assert (x5 : a_halted (onA c false v) = false).
+      { destruct (plain_act_v c ST_ACTIVE v Pa ltac:(auto) Pr) as (_&_&_&_&n5&_). cbv zeta in n5.
+        replace (ST_ACTIVE =? ST_ACTIVE) with true in n5 by reflexivity. cbv iota in n5.
+        (* logged or not, the halted flag is untouched *)
+        unfold onA in *. cbv zeta in *. revert n5. repeat match goal with |- context[if ?b then _ else _] => destruct b end; cbn; intros; assumption || reflexivity || congruence. }
+      split; [exact x5|]. split; [constructor; [congruence|exact x3|intros H; rewrite x4; apply Pt; congruence]|exact I].
+    + destruct (onI_inv c false v Pr) as (x1&x2&x3). pose proof (tadv_onI c false v) as x4.
+      assert (x5 : a_halted (onI c false v) = false).
+      { unfold onI, sw. cbv zeta. repeat match goal with |- context[if ?b then _ else _] => destruct b end; cbn; assumption. }
+      split; [exact x5|]. split; [constructor; [congruence|exact x3|intros H; rewrite x4; apply Pt; congruence]|exact I].
+  - right. unfold aemit, gpv. gv. split; [exact Hh|]. split; [constructor; gv; assumption|].
+    split; [reflexivity|]. rewrite (Ho o eq_refl). reflexivity.
+  - right. split; [exact Hh|split; [exact HP|auto]].
+Qed.
+
+(* the same about the model: every micro-step (other than a trigger configuration) of any input in plain mode *)
+Theorem plain_cfg_thm c m s :
+  is_trig m = false -> PlainC (view s) -> halted s = false ->
+  let r := view (mstep c m s) in let v := view s in
+  (a_halted r = true /\ a_relay r = a_relay v /\ gpv r = gpv v) \/
+  (a_halted r = false /\ PlainC r /\
+   match abs c m s with
+   | ANotify st_ =>
+       if effV c st_ v then
+         a_last r = st_ /\
+         (arelc v = false -> a_relay r = a_relay v /\ gpv r = gpv v) /\
+         (arelc v = true ->
+           match plain_expect c st_ (a_relay v) with
+           | Some h => a_relay r = h /\ gpv r = (if h =? a_relay v then [] else [OGpio (a_now v + RELAY_D1) h]) ++ gpv v
+           | None => a_relay r = a_relay v /\ gpv r = gpv v
+           end)
+       else a_relay r = a_relay v /\ gpv r = gpv v
+   | AMot => True
+   | _ => a_relay r = a_relay v /\ gpv r = gpv v
+   end).
+Proof.
+  intros Ht HP Hh. cbv zeta. rewrite sim_stepG by assumption.
+  assert (Ho : forall o, abs c m s = AOut o -> is_gpio o = false).
+  { intros o E. destruct m; cbn in E; try discriminate;
+      try (destruct (_ && _) in E; discriminate). injection E as <-. reflexivity. }
+  assert (Hn : forall st_, abs c m s = ANotify st_ -> st_ = ST_ACTIVE \/ st_ = ST_INACTIVE).
+  { intros st_ E. destruct m; cbn in E; try discriminate.
+    - destruct (_ && _) in E; [|discriminate]. injection E as <-. unfold stl. destruct (_ =? _); auto.
+    - destruct (_ && _) in E; discriminate. }
+  exact (plain_cfg_step_v c (abs c m s) (view s) HP Hh Ho Hn).
 Qed.
